@@ -354,6 +354,11 @@ def _dedupe_allof_keys(schemas: dict) -> None:
         for m in list(node["allOf"]):
             if "$ref" in m:
                 f = flatten(m, schemas)
+                if f is None:
+                    # parent that is not an object model (string alias, enum, array, map, union): "object AND string" has no
+                    # instance at all, and the merge semantics of the others are not what the reference model implements
+                    node["allOf"].remove(m)
+                    continue
                 if f:
                     if inherited & set(f["properties"]):
                         node["allOf"].remove(m)  # two parents declaring the same key differently: contradictory input
@@ -804,6 +809,7 @@ def specs(draw, gate: Gate | None = None, max_schemas: int = 5, max_ops: int = 4
         cluster = draw(st.sampled_from([["data-sources", "data_sources", "dataSources", "datasources", "DataSources"], ["user groups", "user-groups", "userGroups", "usergroups"]]))
         for (p_, m_, op_) in all_ops:
             op_["tags"] = [draw(st.sampled_from(cluster))]
+    _separate_promo_collisions(all_ops, g)
     spec: dict[str, Any] = {
         "openapi": draw(st.sampled_from(["3.0.0", "3.0.3", "3.1.0"])) if g.flag(draw, "openapi_31", 1, 6) else "3.0.3",
         "info": {"title": draw(st.sampled_from(["Test API", "Pet Store", "My Service"])), "version": "1.0.0"},
@@ -816,6 +822,56 @@ def specs(draw, gate: Gate | None = None, max_schemas: int = 5, max_ops: int = 4
     if g.flag(draw, "servers", 1, 4):
         spec["servers"] = [{"url": "https://api.example.com/v1"}]
     return spec
+
+
+def _inline_body_schemas(op: dict) -> list[dict]:
+    return [m.get("schema") for m in ((op.get("requestBody") or {}).get("content") or {}).values()
+            if isinstance(m, dict) and isinstance(m.get("schema"), dict) and "$ref" not in m["schema"]
+            and (m["schema"].get("type") == "object" or any(k in m["schema"] for k in ("properties", "allOf", "anyOf", "oneOf")))]
+
+
+def _inline_response_codes(op: dict) -> set[str]:
+    out = set()
+    for code, r in (op.get("responses") or {}).items():
+        for m in ((r or {}).get("content") or {}).values():
+            sch = (m or {}).get("schema")
+            if isinstance(sch, dict) and _promotable(sch):
+                out.add(str(code))
+    return out
+
+
+def _separate_promo_collisions(all_ops: list, g: Gate) -> None:
+    """Two operations whose operationIds derive to the same class name (get_item / GetItem) and that both carry an inline request
+    body (or an inline response for the same status): the synthesised <Op>RequestBody / <Op><code>Response names collide (C04-F05,
+    C05-F07).  With the trigger excluded the later operationId is made distinct; otherwise the case is only counted."""
+    seen_body: dict[str, int] = {}
+    seen_resp: dict[tuple[str, str], int] = {}
+    for i, (_p, _m, op) in enumerate(all_ops):
+        oid = op.get("operationId")
+        if not oid:
+            continue
+        key = _cls(oid)
+        hits = []
+        if _inline_body_schemas(op):
+            if key in seen_body:
+                hits.append("colliding_opid_inline_request_body")
+        for code in _inline_response_codes(op):
+            if (key, code) in seen_resp:
+                hits.append("colliding_opid_inline_response")
+        renamed = False
+        for f in sorted(set(hits)):
+            if f in g.exclude:
+                g.excluded[f] += 1
+                if not renamed:
+                    op["operationId"] = f"{oid}X{i}"
+                    renamed = True
+            else:
+                g.used[f] += 1
+        key = _cls(op["operationId"])
+        if _inline_body_schemas(op):
+            seen_body.setdefault(key, i)
+        for code in _inline_response_codes(op):
+            seen_resp.setdefault((key, code), i)
 
 
 @st.composite
